@@ -10,11 +10,11 @@ def jobs_c13(prop, tier, seed):
     for cfg in ("base", "dbg"):
         execs = []
         # deterministic single-threaded pass over every forwarding member and the lock() proxy
-        for store in ("direct", "ref", "anyref", "stateless", "factory_m"):
+        for store in ("direct", "ref", "anyref", "stateless", "factory_m", "emptystateful"):
             execs.append(({"store": store, "mode": "single"}, []))
         # free-running stress, validated the same way (factory_m / factory: what make_thread_safe_allocator builds,
         # with the instrumented and with the library's default mutex)
-        for store in ("direct", "ref", "anyref", "factory_m", "factory"):
+        for store in ("direct", "ref", "anyref", "factory_m", "factory", "emptystateful"):
             for k in range(2 * s):
                 execs.append(({"store": store, "mode": "stress", "threads": rng.choice([2, 3, 4, 8]),
                                "ops": rng.choice([40, 80, 150]), "seed": rng.randint(1, 10 ** 6)}, []))
@@ -27,7 +27,7 @@ def jobs_c13(prop, tier, seed):
         J.append(Job(cfg, "threads", "LockTrace", execs, "threads"))
     # the same kinds of executions under ThreadSanitizer (fewer, shorter: about ten times slower)
     execs = []
-    for store in ("direct", "ref", "anyref", "stateless", "factory_m", "factory"):
+    for store in ("direct", "ref", "anyref", "stateless", "factory_m", "factory", "emptystateful"):
         execs.append(({"store": store, "mode": "single"}, []))
         for k in range(s if tier == "quick" else 20):
             execs.append(({"store": store, "mode": "stress", "threads": rng.choice([2, 3, 4]), "ops": rng.choice([30, 60]),
